@@ -151,7 +151,7 @@ func rtcpBytes(k int, ssrc uint32) []byte {
 		pkts = []rtcp.Packet{&rtcp.TransportLayerCC{SenderSSRC: 77, MediaSSRC: ssrc, BaseSequenceNumber: uint16(k), PacketStatusCount: 2,
 			ReferenceTime: uint32(k), FbPktCount: uint8(k),
 			PacketChunks: []rtcp.PacketStatusChunk{&rtcp.RunLengthChunk{PacketStatusSymbol: rtcp.TypeTCCPacketReceivedSmallDelta, RunLength: 2}},
-			RecvDeltas: []*rtcp.RecvDelta{{Type: rtcp.TypeTCCPacketReceivedSmallDelta, Delta: 250}, {Type: rtcp.TypeTCCPacketReceivedSmallDelta, Delta: 500}}}}
+			RecvDeltas:   []*rtcp.RecvDelta{{Type: rtcp.TypeTCCPacketReceivedSmallDelta, Delta: 250}, {Type: rtcp.TypeTCCPacketReceivedSmallDelta, Delta: 500}}}}
 	case 4:
 		pkts = []rtcp.Packet{&rtcp.PictureLossIndication{SenderSSRC: 77, MediaSSRC: ssrc}, &rtcp.ReceiverReport{SSRC: 77}}
 	case 5:
